@@ -31,6 +31,7 @@ type Verifier struct {
 	// per-exec scratch (reset by newExec)
 	compSorts  map[string]string
 	seedComps  map[string]string
+	allComps   map[string]bool // every component registered by any function of this run (for the frame-prefix sanity report)
 	globalSeen map[*Script]map[string]bool
 	typesSeen  map[*Script]map[string]types.Type
 	ifacesSeen map[*Script]map[string]*types.Interface
@@ -712,7 +713,43 @@ func (V *Verifier) verifyFunction(fn *ssa.Function, lockMode bool) *FnResult {
 		}
 	}
 	V.seedComps = nil
+	if V.allComps == nil {
+		V.allComps = map[string]bool{}
+	}
+	for k := range seed {
+		V.allComps[k] = true
+	}
 	return r
+}
+
+// unmatchedFramePrefixes lists the prefixes of allbut(...) frames (of the contracts used in this run) that match no heap
+// component any verified function touched: usually harmless (the component is simply not used here), sometimes a typo.
+func (V *Verifier) unmatchedFramePrefixes(used map[string]bool) []string {
+	out := map[string]bool{}
+	for key, c := range V.contracts {
+		if used != nil && !used[key] {
+			continue
+		}
+		for _, it := range c.Modifies {
+			if !strings.HasPrefix(it, "allbut(") {
+				continue
+			}
+			for _, p := range strings.Split(strings.TrimSuffix(strings.TrimPrefix(it, "allbut("), ")"), "|") {
+				p = strings.TrimSpace(p)
+				hit := false
+				for k := range V.allComps {
+					if strings.HasPrefix(k, p) {
+						hit = true
+						break
+					}
+				}
+				if !hit {
+					out[p] = true
+				}
+			}
+		}
+	}
+	return sortedKeys(out)
 }
 
 func (V *Verifier) verifyFunctionOnce(fn *ssa.Function, lockMode bool) *FnResult {
